@@ -99,15 +99,18 @@ Consume == /\ l <= NE
            /\ l' = l + 1
            /\ UNCHANGED vars
 
-\* Outcome-only traces (header.outcome_only): calls whose hook events cannot be attributed to one call, e.g. two
-\* concurrent Mine calls on the same Worker.  Only PowMine's invariants at the interface are checked for the call
-\* whose context is never cancelled: no cancellation error without cancellation (CancelledOnlyIfCancelled), a returned
-\* nonce meets the target (NonceOnlyIfFound), nothing leaks, no hang.
+\* Outcome-only traces (header.outcome_only): calls whose hook events cannot be attributed to one call - several Mine
+\* calls at the same time, on one Worker or on separate ones (module PowMineMulti: calls share nothing, so each call on
+\* its own is a behaviour of PowMine).  Only PowMine's invariants at the interface are checked for the judged call: no
+\* cancellation error unless its own context was cancelled (CancelledOnlyIfCancelled; header.cancelled says whether the
+\* driver cancelled it), a returned nonce meets the target (NonceOnlyIfFound), nothing leaks, and it returns at all
+\* (CancelLeadsToReturn / FoundLeadsToReturn: the driver logs "hang" instead of "returned", which no action consumes).
 OutcomeOnly == "outcome_only" \in DOMAIN Trace[1] /\ Trace[1].outcome_only
+OwnCtxCancelled == "cancelled" \in DOMAIN Trace[1] /\ Trace[1].cancelled
 ConsumeOutcome == /\ OutcomeOnly /\ l <= NE
                   /\ LET e == Events[l]
                      IN /\ e.ev = "returned"
-                        /\ e.val # -1                      \* this call's context is never cancelled
+                        /\ (e.val = -1) => OwnCtxCancelled   \* the cancellation error only for a cancelled context
                         /\ e.val # -2 /\ ~e.bad_nonce /\ e.leaked = 0
                   /\ l' = l + 1 /\ UNCHANGED <<vars, ahead>>
 
